@@ -101,5 +101,35 @@ def run(ctx, F, cg):
         ctx.ok("R13c", "import_tenant_with_dedup|rollback", "Err branch deletes recorded nodes, then returns the error")
     else:
         ctx.violation("R13c", "import_tenant_with_dedup|no-rollback", where(w), "the error branch does not delete the nodes the import created")
+    # ---- R13d: a read / decode error is never taken for the end of the input -------------------------------------
+    ctx.rule("R13d", "in the import, the error side of every io::Result read from the snapshot stream reaches only error exits: a failed read (gzip checksum, truncated frame, I/O error) is never treated as a normal end of input, whatever has been counted so far")
+    from .. import mutpoints as mp
+    errs = {eb for eb, el, ew in mp.error_exits(b)}
+    rets = b.ret_blocks()
+    n_d = 0
+    for i in sorted(b.live_blocks()):
+        t = b.blocks[i]["t"]
+        if t[0] != "switch" or t[1][0] == "k":
+            continue
+        ds = b.defs().get(t[1][1][0], [])
+        if not (len(ds) == 1 and ds[0][0] == "stmt" and ds[0][4][0] == "discr"):
+            continue
+        src = ds[0][4][1]
+        ty = b.local_ty(src[0])
+        if src[1] and not all(x == "*" for x in src[1]):
+            continue
+        if not ("std::io::Error" in ty and (ty.startswith("std::result::Result<") or ty.startswith("std::ops::ControlFlow<"))):
+            continue
+        n_d += 1
+        one = [tgt for v, tgt in t[2] if v == "1"]
+        err_side = one[0] if one else t[3]
+        leak = [rb for rb in rets if rb in b.reachable(err_side, avoid=errs | {i})]
+        inst = "import_tenant_inner|io-result|%d" % (n_d - 1)
+        if leak:
+            ctx.violation("R13d", inst + "|error-tolerated", where(r, b.blocks[i]["l"]),
+                          "import_tenant_inner can finish normally from the error side of a read of the snapshot stream (line %d): a corrupted or cut stream whose record counts happen to match is imported as if it were intact, instead of failing and rolling back" % b.blocks[i]["l"])
+        else:
+            ctx.ok("R13d", inst, "the error side only reaches error exits")
+    ctx.floor("R13d", "io::Result tests on the snapshot stream in the import", n_d, 2)
     return ("Decided: which store mutations of the import are outside the rollback's reach — everything that is not a recorded node creation or a change to such a node. "
             "Not decided: that deleting created nodes restores indexes exactly.")
